@@ -52,4 +52,139 @@ theorem at_least_one_page (d : Doc) (fuel index : Nat) (resume : Option Resume) 
         · simp at h; rw [← h]; simp
         · simp at h
 
+/-! ### termination: the fuel never runs out
+
+Every non-blank page strictly advances `pos` (C03.page_progress), `pos < size`, and a blank page is
+followed by a non-blank one: from a state `(resume, next_page, right_page)` at most
+`pagesNeeded` more pages are made. -/
+
+/-- Upper bound of the number of pages still to be made from a page-maker state. -/
+def pagesNeeded (d : Doc) (resume : Option Resume) (np : NextPage) (right : Bool) : Nat :=
+  2 * (size d.root - pos d.root resume) + (if isBlank (requestedSide d.rootLtr np.brk) right then 1 else 0)
+
+/-- More fuel never changes a result. -/
+theorem makeAllPages_fuel_mono (d : Doc) : ∀ (fuel k index : Nat) (resume : Option Resume) (np : NextPage)
+    (right : Bool) (pages : List Page), makeAllPages d fuel index resume np right = some pages →
+    makeAllPages d (fuel + k) index resume np right = some pages := by
+  intro fuel
+  induction fuel with
+  | zero => intro k index resume np right pages h; simp [makeAllPages] at h
+  | succ fuel ih =>
+    intro k index resume np right pages h
+    have : fuel + 1 + k = (fuel + k) + 1 := by omega
+    rw [this]
+    unfold makeAllPages at h ⊢
+    cases hp : remakePage d index resume np right with
+    | none => rw [hp] at h; cases h
+    | some p =>
+      rw [hp] at h
+      simp only at h ⊢
+      cases hr : p.resume with
+      | none => rw [hr] at h; exact h
+      | some r =>
+        rw [hr] at h
+        simp only at h ⊢
+        cases hps : makeAllPages d fuel (index + 1) (some r) p.nextPage (!right) with
+        | none => rw [hps] at h; cases h
+        | some ps =>
+          rw [hps] at h
+          rw [ih k _ _ _ _ ps hps]
+          exact h
+
+/-- **`make_all_pages` terminates**: with at least `pagesNeeded` units of fuel it returns, with at most
+that many pages — from every page-maker state (any resume position, pending break, side). -/
+theorem makeAllPages_terminates (d : Doc) (hN : NoFixedHeight d.root) (hW : WellFormed d.root) :
+    ∀ (fuel index : Nat) (resume : Option Resume) (np : NextPage) (right : Bool),
+    pagesNeeded d resume np right ≤ fuel →
+    ∃ pages, makeAllPages d fuel index resume np right = some pages ∧
+      pages.length ≤ pagesNeeded d resume np right := by
+  intro fuel
+  induction fuel with
+  | zero =>
+    intro index resume np right h
+    have := PM.pos_lt_size d.root resume
+    unfold pagesNeeded at h
+    omega
+  | succ fuel ih =>
+    intro index resume np right h
+    have hlt := PM.pos_lt_size d.root resume
+    have hs := root_assert_unreachable d index resume np right
+    cases hp : remakePage d index resume np right with
+    | none => rw [hp] at hs; simp at hs
+    | some p =>
+      unfold makeAllPages
+      simp only [hp]
+      cases hr : p.resume with
+      | none =>
+        refine ⟨[p], rfl, ?_⟩
+        unfold pagesNeeded
+        simp only [List.length_singleton]
+        omega
+      | some r =>
+        simp only
+        obtain ⟨hbl, _, _⟩ := remakePage_spec d index resume np right p hp
+        have key : pagesNeeded d (some r) p.nextPage (!right) + 1 ≤ pagesNeeded d resume np right := by
+          cases hb : p.type.blank with
+          | true =>
+            obtain ⟨hres, hnp, hnext⟩ := C03.blank_then_nonblank d index resume np right p hp hb
+            have hflip : isBlank (requestedSide d.rootLtr np.brk) (!right) = false := by
+              cases hside : requestedSide d.rootLtr np.brk with
+              | none => cases right <;> simp [isBlank]
+              | some sd =>
+                rw [hb, hside] at hbl
+                revert hbl; cases sd <;> cases right <;> simp [isBlank]
+            unfold pagesNeeded
+            rw [hnp, hflip, ← hbl, hb, ← hr, hres]
+            simp
+          | false =>
+            have hprog := C03.page_progress d hN hW index resume np right p hp hb
+            rw [hr] at hprog
+            have hprog : pos d.root resume < pos d.root (some r) := by
+              rcases hprog with h | h
+              · cases h
+              · exact h
+            have hlt' := PM.pos_lt_size d.root (some r)
+            unfold pagesNeeded
+            rw [← hbl, hb]
+            split <;> simp <;> omega
+        obtain ⟨ps, hps, hlen⟩ := ih (index + 1) (some r) p.nextPage (!right) (by omega)
+        rw [hps]
+        refine ⟨p :: ps, rfl, ?_⟩
+        simp only [List.length_cons]
+        omega
+
+/-- **Pagination terminates** (clause: rendering is total on the pagination path): `2 * size + 2` units of
+fuel are always enough, and the document has at most `2 * size` pages. -/
+theorem paginate_terminates (d : Doc) (hN : NoFixedHeight d.root) (hW : WellFormed d.root) :
+    ∃ pages, paginate d (2 * size d.root + 2) = some pages ∧ pages.length ≤ 2 * size d.root := by
+  unfold paginate
+  have hn : pagesNeeded d none { brk := none, page := some (boxPageStart d.root) } (firstRight d) ≤ 2 * size d.root := by
+    unfold pagesNeeded
+    simp [requestedSide, isBlank]
+    omega
+  obtain ⟨pages, hp, hl⟩ := makeAllPages_terminates d hN hW (2 * size d.root + 2) 0 none
+    { brk := none, page := some (boxPageStart d.root) } (firstRight d) (by omega)
+  exact ⟨pages, hp, by omega⟩
+
+/-- The result does not depend on the fuel once it is at least `2 * size`. -/
+theorem paginate_fuel_irrelevant (d : Doc) (hN : NoFixedHeight d.root) (hW : WellFormed d.root) (fuel : Nat)
+    (hf : 2 * size d.root ≤ fuel) : paginate d fuel = paginate d (2 * size d.root) := by
+  unfold paginate
+  have hn : pagesNeeded d none { brk := none, page := some (boxPageStart d.root) } (firstRight d) ≤ 2 * size d.root := by
+    unfold pagesNeeded
+    simp [requestedSide, isBlank]
+    omega
+  obtain ⟨pages, hp, _⟩ := makeAllPages_terminates d hN hW (2 * size d.root) 0 none
+    { brk := none, page := some (boxPageStart d.root) } (firstRight d) hn
+  have := makeAllPages_fuel_mono d (2 * size d.root) (fuel - 2 * size d.root) 0 none _ _ pages hp
+  have he : 2 * size d.root + (fuel - 2 * size d.root) = fuel := by omega
+  rw [he] at this
+  rw [this, hp]
+
+/-! Non-vacuity: `C03.exDoc` (size 9) has 5 pages ≤ 18, one of them blank. -/
+example : NoFixedHeight C03.exDoc.root ∧ WellFormed C03.exDoc.root ∧
+    (paginate C03.exDoc (2 * size C03.exDoc.root + 2)).map List.length = some 5 :=
+  ⟨by simp [C03.exDoc, NoFixedHeight, NoFixedHeightList, C03.exSt],
+   by simp [C03.exDoc, WellFormed, WellFormedList, C03.exSt], by decide +kernel⟩
+
 end Wp.C02
